@@ -171,19 +171,35 @@ impl<'a> Lexer<'a> {
     }
 
     fn lex_simple_string_after_start(&mut self, end: char) -> String {
-        let mut acc = String::new();
+        // outside bytes literals only whole chars are pushed, so this is always valid UTF-8
+        String::from_utf8(self.lex_string_bytes_after_start(end, false))
+            .expect("string literal is valid utf-8")
+    }
+
+    // The body of a string or bytes literal as UTF-8 bytes. In a bytes literal (`raw_hex`) a
+    // `\xNN` escape denotes the single byte NN rather than the character U+00NN.
+    fn lex_string_bytes_after_start(&mut self, end: char, raw_hex: bool) -> Vec<u8> {
+        fn push_char(acc: &mut Vec<u8>, c: char) {
+            let mut buf = [0u8; 4];
+            acc.extend_from_slice(c.encode_utf8(&mut buf).as_bytes());
+        }
+        let mut acc: Vec<u8> = Vec::new();
         while self.peek() != Some(&end) {
             match self.next() {
                 Some('\\') => match self.next() {
-                    Some('n') => acc.push('\n'),
-                    Some('r') => acc.push('\r'),
-                    Some('t') => acc.push('\t'),
-                    Some('0') => acc.push('\0'),
-                    Some(c @ ('\\' | '\'' | '\"')) => acc.push(c),
+                    Some('n') => push_char(&mut acc, '\n'),
+                    Some('r') => push_char(&mut acc, '\r'),
+                    Some('t') => push_char(&mut acc, '\t'),
+                    Some('0') => push_char(&mut acc, '\0'),
+                    Some(c @ ('\\' | '\'' | '\"')) => push_char(&mut acc, c),
                     Some('x') => {
                         if let Some(d1) = self.next().and_then(|c| c.to_digit(16)) {
                             if let Some(d2) = self.next().and_then(|c| c.to_digit(16)) {
-                                acc.push(char::from_u32(d1 * 16 + d2).unwrap())
+                                if raw_hex {
+                                    acc.push((d1 * 16 + d2) as u8)
+                                } else {
+                                    push_char(&mut acc, char::from_u32(d1 * 16 + d2).unwrap())
+                                }
                             } else {
                                 self.emit(Token::Invalid(format!(
                                     "lexing: string literal: bad hex escape"
@@ -240,7 +256,7 @@ impl<'a> Lexer<'a> {
                             None => {}
                         }
                         match char::from_u32(x) {
-                            Some(c) => acc.push(c),
+                            Some(c) => push_char(&mut acc, c),
                             None => {
                                 self.emit(Token::Invalid(format!(
                                     "lexing: string literal: u result too big: {}",
@@ -264,7 +280,7 @@ impl<'a> Lexer<'a> {
                         break;
                     }
                 },
-                Some(c) => acc.push(c),
+                Some(c) => push_char(&mut acc, c),
                 None => {
                     self.emit(Token::Invalid(format!("lexing: string literal hit eof")));
                     break;
@@ -525,8 +541,8 @@ impl<'a> Lexer<'a> {
                                 self.next();
                                 // TODO this isn't how it works we need to deal with hex
                                 // escapes differently at least
-                                let s = self.lex_simple_string_after_start(delim);
-                                self.emit(Token::BytesLit(Rc::new(s.into_bytes())))
+                                let s = self.lex_string_bytes_after_start(delim, true);
+                                self.emit(Token::BytesLit(Rc::new(s)))
                             } else if self.peek() == Some(&'[') {
                                 self.next();
                                 self.emit(Token::BLeftBracket);
